@@ -219,9 +219,11 @@ package kvql
 //@ define kindOf(w B) Int = ite(w == "select", SELECT, ite(w == "where", WHERE, ite(w == "key", KEY, ite(w == "value", VALUE, ite(w == "limit", LIMIT, ite(w == "order", ORDER, ite(w == "by", BY, ite(w == "asc", ASC, ite(w == "desc", DESC, ite(w == "true", TRUE, ite(w == "false", FALSE, ite(w == "as", AS, ite(w == "group", GROUP, ite(w == "in" || w == "between" || w == "and" || w == "or", OPERATOR, ite(w == "put", PUT, ite(w == "remove", REMOVE, ite(w == "delete", DELETE, ite(parseIntOk(w), NUMBER, ite(parseFloatOk(w), FLOAT, NAME)))))))))))))))))))
 //
 //@ func isNumber(val string) (ok bool)
+//@   props C16
 //@   assigns nothing
 //@   ensures ok == parseIntOk(val(val))
 //@ func isFloat(val string) (ok bool)
+//@   props C16
 //@   assigns nothing
 //@   ensures ok == parseFloatOk(val(val))
 //
@@ -241,6 +243,11 @@ package kvql
 //@ define quotedAt(q B, d B, p Int, c Int) Bool = 0 <= p && p + blen(d) + 2 <= blen(q) && at(q, p) == c && at(q, p + 1 + blen(d)) == c && d == sub(q, p + 1, p + 1 + blen(d))
 //@ axiom tokP_def(q B, tp Int, d B, p Int): tokP(q, tp, d, p) == ite(tp == STRING, quotedAt(q, d, p, 39) || quotedAt(q, d, p, 34), ite(tp == NAME, wordAt(q, d, p) || quotedAt(q, d, p, 96), exactAt(q, d, p) || wordAt(q, d, p)))
 //@ define tokOK(q B, t *Token) Bool = t != nil && tokP(q, t.Tp, val(t.Data), t.Pos)
+//
+//@ func NewLexer(query string) (l *Lexer)
+//@   props C16
+//@   assigns nothing
+//@   ensures[C16] whole: l != nil && fresh(l) && l.Query == query && l.Length == len(query)
 //
 //@ func (l *Lexer) Split() (ret []*Token)
 //@   props C16
